@@ -38,6 +38,13 @@ CLAIMED = {
    "A clean scan error is always accepted. The gap lexer tracks the current delimiter by replaying DELIMITER commands itself; an unterminated comment in a gap is accepted leniently. "
    "Option sets not used by community drivers (GO command, TRY/CATCH, BeginEndTerminator) are not exercised. Termination is enforced by the test timeout (reported as inconclusive, not a violation).",
    "4/C08"),
+ "C06": ("exploration",
+   "exhaustive single-edit neighbourhood + rapid PBT against an independent reference model of the sum-file format; rapid operation histories over API writers and the real CLI",
+   "Directories are generated (names incl. surprising sort orders and bystanders, contents incl. sum-ignore/checkpoint directives and near misses); atlas.sum written by WriteSumFile is compared byte-for-byte with an independent implementation of the format; "
+   "after directory edits (add/remove/rename/swap/flip/insert/delete, 1-3 stacked) and atlas.sum edits (hash/name character, delete/duplicate/swap lines, truncate, remove) migrate.Validate must fail with a checksum error iff the model's protected sequence changed — both directions, on MemDir and LocalDir; "
+   "the complete single-edit neighbourhood of fixed small directories is enumerated. Histories of Planner.WritePlan / WriteCheckpoint / MemDir.CopyFiles / `migrate new|hash|diff|import` and tamperings are replayed with the invariant that API Validate, `migrate validate` and `migrate apply` agree with the model after every step.",
+   "SHA-256 collisions are ignored. Content of `atlas:sum ignore` files and trailing ignored files are outside the protected sequence by the format's own definition (model says must still validate). Whitespace-only edits of atlas.sum are not generated (unspecified).",
+   "4/C06"),
 }
 PENDING_REASON = "check not built yet in this session (planned in DESIGN.md section 4; will be claimed once its quick check is green and sensitivity-tested)"
 
